@@ -86,6 +86,15 @@ CHECKS = {
         design="4/C17", technique="Lean 4 proof (sorting + permutation, prologue non-interference) + cross-process hash comparison",
         note="Partial by nature: process-level effects (hash seed, module-level state) are only observed on the generated "
              "descriptions; the theorems cover the ordering logic and the prologue pattern, not every module-level variable."),
+    "C06": dict(
+        text="Theorems window_sem (for all bounds and temperatures in any linear order the emitted guard is true exactly when "
+             "Tmin <= T < Tmax, bounds <= 0 unbounded), outside_zero / inside_rate, no_window_always_active, window_partition "
+             "(for strictly increasing positive bounds exactly one adjacent window is active at every T in [t0, tn), boundaries "
+             "included). Tie: guards parsed from the rendered rates of networks read from native/KIDA/UMIST/KROME files, "
+             "evaluated and executed (compiled EvalRates against the shim, k pre-filled with NaN) at nextafter-below/at/above "
+             "every bound; zero initialisers of k[] at every EvalRates call site; KROME bound reader vs model.",
+        design="4/C06", technique="Lean 4 proof (linear-order case analysis, induction over the bound list) + parsed-guard and compiled-code differential check",
+        note="A rate modifier replaces the guard together with the rate (documented in C13). Python's float() reads the bound text."),
 }
 
 NOT_YET = {}
